@@ -466,6 +466,8 @@ func (ex *executor) execInstr(st *state, in ssa.Instruction) {
 	case *ssa.Go:
 		ex.execGo(st, t)
 	case *ssa.Send:
+		// `atcall chan:send assert ...`: an assertion that has to hold at every channel send of the function
+		ex.atCallObligations(st, "chan:send", []Value{ex.val(t.Chan), ex.val(t.X)}, t.Pos())
 		ex.yield(st, "channel send")
 	case *ssa.Select:
 		ex.yield(st, "select")
